@@ -669,7 +669,14 @@ impl Property for C05 {
     }
     fn worker_env(&self, _w: u64, _master: u64) -> Vec<(String, String)> {
         // debug-level log lines of the catch-up computation serve as fault points (see execute)
-        vec![("NUNSIM_LOG".to_string(), "debug".to_string())]
+        // (a quarter of the workers with a small operation log each: the primary's log rotates while a node is away)
+        let mut env = vec![("NUNSIM_LOG".to_string(), "debug".to_string())];
+        match _w % 4 {
+            1 => env.push(("NUN_MAX_OP_LOG_SIZE".to_string(), "2500".to_string())),
+            3 => env.push(("NUN_MAX_OP_LOG_SIZE".to_string(), "10000".to_string())),
+            _ => {}
+        }
+        env
     }
     fn run_one(&self, scenario: &str, ctx: &RunCtx) -> RunReport {
         let mut rng = Rng::new(ctx.seed);
